@@ -49,6 +49,12 @@ let parse_op (s : string) : op =
   | [ "w8"; a; v ] -> OW8 (zx a, zx v)
   | [ "r8"; a ] -> OR8 (zx a)
   | [ "port"; p; v ] -> OPort (zx p, zx v)
+  | [ "step" ] -> OStep
+  | [ "stepn"; n ] -> OStepN (zx n)
+  | [ "irq"; v ] -> OIrq (zx v)
+  | [ "bnd" ] -> OBnd
+  | [ "int"; v ] -> OInt (zx v)
+  | [ "tick"; n ] -> OTick (zx n)
   | [ "w16"; a; v ] -> OWr (z_of_int 2, zx a, zx v)
   | [ "w32"; a; v ] -> OWr (z_of_int 4, zx a, zx v)
   | [ "r16"; a ] -> ORd (z_of_int 2, zx a)
@@ -94,6 +100,16 @@ let parse_case (line : string) : case =
                 (unhex bytes)
             | _ -> failwith "bad mem")
           (nonempty (split ';' v))
+      | "exit" -> s := { !s with exit_addr = zx v }
+      | "pin" ->
+        List.iter (fun item ->
+            match split ':' item with
+            | [ p; x ] ->
+              let b = (!s).cbus in
+              s := set_bus { b with b_pin = sset b.b_pin (z_of_int (hx p - 1)) (zx x) } !s
+            | _ -> failwith "bad pin")
+          (nonempty (split ';' v))
+      | "sock" -> ()
       | "ops" -> opstrs := split ',' v; ops := List.map parse_op !opstrs
       | _ -> failwith ("unknown key [" ^ k ^ "]"))
     kvs;
@@ -179,6 +195,65 @@ let ref_bus (c : case) : string * bool =
       (if ign = [] then "" else " ignmd=" ^ String.concat "," (List.map (Printf.sprintf "%x") ign)) in
   (s, !dom)
 
+(* kind=step: one instruction; reference = decode_ref + sem_ref + charge_ref, domains of C01-C08, C20 *)
+let fmt_state_tokens (c : case) (s1 : cpu) : string =
+  let ers = List.init 8 (fun i -> Printf.sprintf "%x" (int_of_z (get_er s1.er (z_of_int i)))) in
+  let md = mem_diff c.s0.cbus s1.cbus in
+  let md = List.sort compare (List.map (fun (a, v) -> (int_of_z a, int_of_z v)) md) in
+  let md = List.map (fun (a, v) -> Printf.sprintf "%x:%02x" a v) md in
+  Printf.sprintf "pc=%x ccr=%x er=%s md=%s" (int_of_z s1.pc) (int_of_z s1.ccr) (String.concat "," ers) (String.concat ";" md)
+
+let ref_step_case (c : case) : string * string =
+  let s = c.s0 in
+  match ref_decode s with
+  | None -> ("", "")
+  | Some (i, len) ->
+    let b2i b = if b then 1 else 0 in
+    let d1 = dom_c01 i len s and d2 = dom_c02 i len s and d3 = dom_c03 i len s and d4 = dom_c04 i len s
+    and d5 = dom_c05 i len s and d6 = dom_c06 i len s and d7a = dom_c07a i len s and d7b = dom_c07b i len s
+    and d8 = dom_c08 i len s and d20 = dom_c20 i len s in
+    let anyd = d1 || d2 || d3 || d4 || d5 || d6 || d7a || d8 || d20 in
+    let known = (if known_shal i s then " known_C03=shal known_C07=shal" else "")
+                ^ (if known_stc_predec i then " known_C08=stc_predec known_C07=stc_predec known_C20=stc_predec" else "") in
+    let dline = Printf.sprintf "C01=%d C02=%d C03=%d C04=%d C05=%d C06=%d C07=%d C08=%d C20=%d%s"
+        (b2i d1) (b2i d2) (b2i d3) (b2i d4) (b2i d5) (b2i d6) (b2i (d7a || d7b)) (b2i d8) (b2i d20) known in
+    if d7b then ("resclass=err", dline)
+    else if anyd then
+      match sem_ref i len s with
+      | None -> ("", "")     (* the reference itself faults: no claim *)
+      | Some s1 ->
+        (* bytes left open by the property: top byte of a BSR/JSR frame; the two data bytes of STC.W *)
+        let ign = match i with
+          | IBsr _ | IJsr _ -> [ (int_of_z (reg32 s1 (z_of_int 7))) land 0xffffff ]
+          | IStcW _ -> List.concat_map (fun (a, n) -> List.init (int_of_z n) (fun k -> int_of_z a + k)) (accesses i s)
+          | _ -> [] in
+        let ccrmask = match i with ITrapa _ -> " ccrmask=bf" | _ -> "" in
+        let r = Printf.sprintf "resclass=ok %s st=ok:%x%s%s" (fmt_state_tokens c s1) (int_of_z (charge_ref i len s)) ccrmask
+            (if ign = [] then "" else " ignmd=" ^ String.concat "," (List.map (Printf.sprintf "%x") ign)) in
+        (r, dline)
+    else ("", dline)
+
+(* kind=entry: ops = int:<v> [,step]: interrupt entry through vector v, optionally followed by the handler's RTE *)
+let ref_entry_case (c : case) : string * string =
+  match c.ops with
+  | OInt v :: rest ->
+    let s = c.s0 in
+    if not (dom_entry v s) then ("", "C06=0")
+    else (match ref_entry v s with
+        | None -> ("", "C06=0")
+        | Some s1 ->
+          (match rest with
+           | [] -> (Printf.sprintf "resclass=ok %s ccrmask=bf" (fmt_state_tokens c s1), "C06=1")
+           | [ OStep ] ->
+             (match ref_decode s1 with
+              | Some (i, len) when dom_c06 i len s1 ->
+                (match sem_ref i len s1 with
+                 | Some s2 -> (Printf.sprintf "resclass=ok,ok %s" (fmt_state_tokens c s2), "C06=1")
+                 | None -> ("", "C06=0"))
+              | _ -> ("", "C06=0"))
+           | _ -> ("", "C06=0")))
+  | _ -> ("", "C06=0")
+
 let () =
   let inp = Sys.argv.(1) and outp = Sys.argv.(2) in
   let ic = open_in inp and oc = open_out outp in
@@ -193,6 +268,12 @@ let () =
           | "price" ->
             let (r, d) = ref_price c in
             Printf.fprintf oc "R id=%s %s\nD id=%s C19=%d\n" c.id r c.id (if d then 1 else 0)
+          | "step" ->
+            let (r, d) = ref_step_case c in
+            Printf.fprintf oc "R id=%s %s\nD id=%s %s\n" c.id r c.id d
+          | "entry" ->
+            let (r, d) = ref_entry_case c in
+            Printf.fprintf oc "R id=%s %s\nD id=%s %s\n" c.id r c.id d
           | "bus" ->
             let (r, d) = ref_bus c in
             Printf.fprintf oc "R id=%s %s\nD id=%s C09=%d\n" c.id r c.id (if d then 1 else 0)
